@@ -4,6 +4,8 @@
 //! property logic: every accept/reject decision is taken by TLC on the TLA+ specification.
 
 mod apidrv;
+#[cfg(feature = "crypto")]
+mod builderdrv;
 mod certdrv;
 mod clidrv;
 mod csrdrv;
@@ -71,6 +73,8 @@ fn main() {
 		"cli-secrets" => secretdrv::run_cli(&args[2], &args[3], &args[4], &args[5]),
 		"sessions" => sessiondrv::run_sessions(&args[2], &args[3]),
 		"api" => apidrv::run(&args[2], &args[3]),
+		#[cfg(feature = "crypto")]
+		"builders" => builderdrv::run_cases(&args[2], &args[3], &args[4]),
 		"dn-cases" => dndrv::run_cases(&args[2], &args[3]),
 		"dn-random" => dndrv::run_random(&args[2], args[3].parse().unwrap(), args[4].parse().unwrap()),
 		other => {
